@@ -202,12 +202,23 @@ def subset(check, prog):
         c, meth, recv, args = draws[0]
         n = args[0]
         canon = Canon()
-        want = expr_term(prog, 'len(data.x) * len(data.y)', {'data': sym('data')})
-        check.require(canon.equal(n, want) and len(args) > 1 and
+        # the indices select along the flattened pixel axis, so they are drawn from
+        # exactly that many values: the length of the axis `isel(flat=...)` indexes
+        # (x * y * z for a grid -- not x * y, which reaches only the first 1/nz of a
+        # z stack and is n**2 for data that are already flat)
+        F = intern(('call', MD + 'flat', (sym('data'),), ()))
+        env = {'F': F, 'data': sym('data')}
+        wants = [expr_term(prog, e_, env) for e_ in (
+            "F.sizes['flat']", "len(F.flat)", "len(F['flat'])", "F.flat.size",
+            "len(data.x) * len(data.y) * len(data.z)")]
+        okp = any(canon.equal(n, w_) for w_ in wants)
+        check.require(okp and len(args) > 1 and
                       args[1] == sym('pixels'), 'D2-distinct-pixels',
                       'make_subset_data population',
-                      '`pixels` indices out of len(x)*len(y)', loc,
-                      fail_detail='draws %s from %s' % (
+                      '`pixels` indices out of the length of the flattened pixel axis',
+                      loc,
+                      fail_detail='draws %s from %s, but the indices select along the '
+                      'flattened (x, y, z) axis' % (
                           show(args[1])[:40] if len(args) > 1 else None,
                           show(n)[:80]))
     rets = [o for o in res.returns if o.value != sym('data')]
